@@ -403,6 +403,43 @@ def finish(ctx: Ctx, *, level: str, rule: str, assumptions, t0: float, extra=Non
     return 1 if violations else 0
 
 
+# ---- the same check under other interpreter conditions --------------------------------------------
+def sub_pass(ctx: Ctx, flags, tag: str, env_extra=None):
+    """Run this property's quick tier once more in a fresh interpreter started with `flags` (e.g. -O: assert statements are not
+    executed) and fold what it finds into this run. Buckets get the suffix |<tag>; the replay file records the flags and
+    `check --replay` re-executes itself with them."""
+    import subprocess
+    import tempfile
+    if os.environ.get("VF_SUBPASS"):
+        return
+    tmp = tempfile.mkdtemp(prefix="vfsub")
+    try:
+        env = dict(os.environ, VF_EVIDENCE_DIR=tmp, VF_SUBPASS=tag, VERIF_TIER="quick", VERIF_SEED=str(ctx.seed))
+        env.update(env_extra or {})
+        p = subprocess.run([sys.executable] + list(flags) + ["-m", "vf.main", ctx.pid, "quick"], cwd=VERIF, env=env, capture_output=True, text=True)
+        if p.returncode not in (0, 1):
+            raise RuntimeError(f"sub-pass {tag} of {ctx.pid} failed (exit {p.returncode}):\n{p.stdout[-1500:]}\n{p.stderr[-1500:]}")
+        with open(os.path.join(tmp, ctx.pid + ".json")) as f:
+            ev = json.load(f)
+        n = int(ev["coverage"]["evaluations"])
+        ctx.count(n)
+        ctx.nontrivial_extra += int(ev["coverage"]["distinct_nontrivial"])
+        ctx.klass("subpass:" + tag, n)
+        for b, k in ev["coverage"].get("excluded_known", {}).items():
+            ctx.excluded_known[b] = ctx.excluded_known.get(b, 0) + k
+        rdir = os.path.join(tmp, "replays", ctx.pid)
+        if os.path.isdir(rdir):
+            for fn in sorted(os.listdir(rdir)):
+                with open(os.path.join(rdir, fn)) as f:
+                    rep = json.load(f)
+                how = " ".join(list(flags) + [f"{k}={v}" for k, v in (env_extra or {}).items()])
+                ctx.report(rep["bucket"] + "|" + tag, rep["what"] + f" [interpreter started with {how}]",
+                           dict(rep["case"], interpreter_flags=list(flags), interpreter_env=dict(env_extra or {})))
+    finally:
+        import shutil
+        shutil.rmtree(tmp, ignore_errors=True)
+
+
 # ---- stateful (rule-based) driver ----------------------------------------------------------------
 def hyp_machine(ctx: Ctx, make_machine, *, max_examples: int, step_count: int, name: str = "machine", rounds: int = 6,
                 shrink: bool = True):
